@@ -1,1 +1,274 @@
+/-
+  Lemmas/C08Mv.lean — the sparse term lists of Core/C08.lean denote Mathlib multivariate polynomials
+  (`toMv : Poly K → MvPolynomial (Fin 6) K`); the kernels of the model are the algebraic operations:
+  `diff = pderiv`, `mul = *`, `poisson = PB` (the canonical Poisson bracket), `coeff = MvPolynomial.coeff`.
+  The bracket with the diagonal quadratic part acts diagonally on monomials (`coeff_PB_H2`).
+-/
 import HitenModel.Lemmas.C08
+import Mathlib.Algebra.MvPolynomial.PDeriv
+import Mathlib.Algebra.MvPolynomial.Eval
+import Mathlib.Algebra.MvPolynomial.CommRing
+import Mathlib.Algebra.BigOperators.Fin
+import Mathlib.Tactic.FinCases
+import Mathlib.Tactic.FieldSimp
+
+set_option linter.unusedSectionVars false
+
+namespace HitenModel.C08
+open MvPolynomial
+
+/-! ### exponent vectors -/
+
+/-- the exponent vector as a finitely supported function on the six variables -/
+noncomputable def Mono.toFinsupp (m : Mono) : Fin 6 →₀ ℕ := Finsupp.equivFunOnFinite.symm fun j => m.get j.val
+
+@[simp] theorem Mono.toFinsupp_apply (m : Mono) (j : Fin 6) : m.toFinsupp j = m.get j.val := rfl
+
+def Mono.ofFun (f : Fin 6 → ℕ) : Mono := ⟨f 0, f 1, f 2, f 3, f 4, f 5⟩
+
+theorem Mono.toFinsupp_ofFun (s : Fin 6 →₀ ℕ) : (Mono.ofFun s).toFinsupp = s := by
+  ext j; fin_cases j <;> rfl
+
+theorem Mono.toFinsupp_injective : Function.Injective Mono.toFinsupp := by
+  intro m n h
+  have h0 := DFunLike.congr_fun h 0
+  have h1 := DFunLike.congr_fun h 1
+  have h2 := DFunLike.congr_fun h 2
+  have h3 := DFunLike.congr_fun h 3
+  have h4 := DFunLike.congr_fun h 4
+  have h5 := DFunLike.congr_fun h 5
+  simp only [Mono.toFinsupp_apply, Mono.get] at h0 h1 h2 h3 h4 h5
+  cases m; cases n
+  simp_all
+
+theorem Mono.toFinsupp_add (m n : Mono) : (m.add n).toFinsupp = m.toFinsupp + n.toFinsupp := by
+  ext j; fin_cases j <;> simp [Mono.add, Mono.get]
+
+theorem Mono.toFinsupp_dec (m : Mono) (j : Fin 6) : (m.dec j.val).toFinsupp = m.toFinsupp - Finsupp.single j 1 := by
+  ext i
+  fin_cases j <;> fin_cases i <;> simp [Mono.dec, Mono.get]
+
+section
+variable {K : Type} [Field K] [DecidableEq K]
+
+/-! ### denotation -/
+
+/-- the polynomial denoted by a term list -/
+noncomputable def toMv (p : Poly K) : MvPolynomial (Fin 6) K := (p.map fun t => monomial t.1.toFinsupp t.2).sum
+
+@[simp] theorem toMv_nil : toMv ([] : Poly K) = 0 := rfl
+
+@[simp] theorem toMv_cons (t : Mono × K) (r : Poly K) : toMv (t :: r) = monomial t.1.toFinsupp t.2 + toMv r := by
+  simp [toMv]
+
+theorem toMv_append (p q : Poly K) : toMv (p ++ q) = toMv p + toMv q := by
+  induction p with
+  | nil => simp
+  | cons t r ih => rw [List.cons_append, toMv_cons, toMv_cons, ih, add_assoc]
+
+/-- `coeff` of the model is the coefficient of the denoted polynomial -/
+theorem coeff_toMv (p : Poly K) (m : Mono) : MvPolynomial.coeff m.toFinsupp (toMv p) = coeff p m := by
+  induction p with
+  | nil => simp
+  | cons t r ih =>
+    rw [toMv_cons, MvPolynomial.coeff_add, ih, coeff_cons, MvPolynomial.coeff_monomial]
+    by_cases e : t.1 = m
+    · subst e; simp
+    · have : ¬ t.1.toFinsupp = m.toFinsupp := fun h => e (Mono.toFinsupp_injective h)
+      simp [e, this]
+
+/-- two term lists with the same coefficients denote the same polynomial -/
+theorem toMv_ext {p q : Poly K} (h : ∀ m, coeff p m = coeff q m) : toMv p = toMv q := by
+  apply MvPolynomial.ext
+  intro s
+  rw [← Mono.toFinsupp_ofFun s, coeff_toMv, coeff_toMv, h]
+
+theorem toMv_eq_iff {p q : Poly K} : toMv p = toMv q ↔ ∀ m, coeff p m = coeff q m :=
+  ⟨fun h m => by rw [← coeff_toMv, ← coeff_toMv, h], toMv_ext⟩
+
+theorem toMv_neg (p : Poly K) : toMv (neg p) = - toMv p := by
+  induction p with
+  | nil => simp [neg]
+  | cons t r ih =>
+    have : neg (t :: r) = (t.1, -t.2) :: neg r := rfl
+    rw [this, toMv_cons, toMv_cons, ih]; simp only [map_neg]; ring
+
+theorem toMv_scale (a : K) (p : Poly K) : toMv (scale a p) = C a * toMv p := by
+  induction p with
+  | nil => simp [scale]
+  | cons t r ih =>
+    have : scale a (t :: r) = (t.1, a * t.2) :: scale a r := rfl
+    rw [this, toMv_cons, toMv_cons, ih, mul_add, C_mul_monomial]
+
+/-- `_poly_diff` is the partial derivative -/
+theorem toMv_diff (j : Fin 6) (p : Poly K) : toMv (diff j.val p) = pderiv j (toMv p) := by
+  induction p with
+  | nil => simp [diff]
+  | cons t r ih =>
+    unfold diff at ih ⊢
+    rw [List.filterMap_cons, toMv_cons, map_add, pderiv_monomial, ← ih]
+    by_cases h0 : t.1.get j.val = 0
+    · simp [h0]
+    · simp only [h0, ↓reduceIte, toMv_cons, Mono.toFinsupp_dec, Mono.toFinsupp_apply]
+      rw [mul_comm]
+
+theorem toMv_mulTerm (t : Mono × K) (q : Poly K) : toMv (mulTerm t q) = monomial t.1.toFinsupp t.2 * toMv q := by
+  induction q with
+  | nil => simp [mulTerm]
+  | cons u r ih =>
+    have : mulTerm t (u :: r) = (t.1.add u.1, t.2 * u.2) :: mulTerm t r := rfl
+    rw [this, toMv_cons, toMv_cons, ih, mul_add, monomial_mul, Mono.toFinsupp_add]
+
+/-- `_poly_mul` is the product -/
+theorem toMv_mul (p q : Poly K) : toMv (mul p q) = toMv p * toMv q := by
+  induction p with
+  | nil => simp [mul]
+  | cons t r ih =>
+    unfold mul at ih ⊢
+    rw [List.flatMap_cons, toMv_append, toMv_mulTerm, ih, toMv_cons, add_mul]
+
+/-- the canonical Poisson bracket on `K[q1,q2,q3,p1,p2,p3]` (variables 0,1,2 = q, 3,4,5 = p) -/
+noncomputable def PB (f g : MvPolynomial (Fin 6) K) : MvPolynomial (Fin 6) K :=
+  (pderiv 0 f * pderiv 3 g - pderiv 3 f * pderiv 0 g)
+    + ((pderiv 1 f * pderiv 4 g - pderiv 4 f * pderiv 1 g) + (pderiv 2 f * pderiv 5 g - pderiv 5 f * pderiv 2 g))
+
+/-- `_poly_poisson` / `_polynomial_poisson_bracket` (untruncated) is the canonical Poisson bracket -/
+theorem toMv_poisson (p q : Poly K) : toMv (poisson p q) = PB (toMv p) (toMv q) := by
+  have d0 := toMv_diff (K := K) 0
+  have d1 := toMv_diff (K := K) 1
+  have d2 := toMv_diff (K := K) 2
+  have d3 := toMv_diff (K := K) 3
+  have d4 := toMv_diff (K := K) 4
+  have d5 := toMv_diff (K := K) 5
+  simp only [Fin.val_zero, Fin.val_one] at d0 d1
+  have e2 : ((2 : Fin 6) : ℕ) = 2 := rfl
+  have e3 : ((3 : Fin 6) : ℕ) = 3 := rfl
+  have e4 : ((4 : Fin 6) : ℕ) = 4 := rfl
+  have e5 : ((5 : Fin 6) : ℕ) = 5 := rfl
+  rw [e2] at d2; rw [e3] at d3; rw [e4] at d4; rw [e5] at d5
+  simp only [poisson, poissonPair, toMv_append, toMv_neg, toMv_mul, Nat.zero_add, Nat.reduceAdd, d0, d1, d2, d3, d4, d5, PB]
+  ring
+
+theorem PB_add_left (f g h : MvPolynomial (Fin 6) K) : PB (f + g) h = PB f h + PB g h := by
+  simp only [PB, map_add]; ring
+
+theorem PB_add_right (f g h : MvPolynomial (Fin 6) K) : PB f (g + h) = PB f g + PB f h := by
+  simp only [PB, map_add]; ring
+
+theorem PB_antisymm (f g : MvPolynomial (Fin 6) K) : PB f g = - PB g f := by
+  simp only [PB]; ring
+
+/-- Leibniz rule: `{·, h}` is a derivation -/
+theorem PB_mul_left (f g h : MvPolynomial (Fin 6) K) : PB (f * g) h = f * PB g h + PB f h * g := by
+  simp only [PB, Derivation.leibniz, smul_eq_mul]; ring
+
+/-! ### the bracket with the diagonal quadratic part -/
+
+/-- Euler: `x_i ∂/∂x_i` multiplies the monomial `x^s` by `s_i` -/
+theorem coeff_X_mul_pderiv (i : Fin 6) (f : MvPolynomial (Fin 6) K) (s : Fin 6 →₀ ℕ) :
+    MvPolynomial.coeff s (X i * pderiv i f) = (s i : K) * MvPolynomial.coeff s f := by
+  induction f using MvPolynomial.induction_on' with
+  | monomial u a =>
+    have key : X i * pderiv i (monomial u a) = monomial u (a * (u i : K)) := by
+      rw [pderiv_monomial]
+      by_cases h0 : u i = 0
+      · simp [h0]
+      · have hX : (X i : MvPolynomial (Fin 6) K) = monomial (Finsupp.single i 1) 1 := rfl
+        have hs : Finsupp.single i 1 + (u - Finsupp.single i 1) = u := by
+          ext j
+          by_cases e : j = i
+          · subst e; simp; omega
+          · simp [Finsupp.single_apply, Ne.symm e]
+        rw [hX, monomial_mul, one_mul, hs]
+    rw [key, MvPolynomial.coeff_monomial, MvPolynomial.coeff_monomial]
+    by_cases e : u = s
+    · subst e; simp; ring
+    · simp [e]
+  | add p q hp hq => rw [map_add, mul_add, MvPolynomial.coeff_add, MvPolynomial.coeff_add, hp, hq]; ring
+
+theorem toMv_H2 (e1 e2 e3 : K) :
+    toMv (H2 e1 e2 e3) = C e1 * (X 0 * X 3) + (C e2 * (X 1 * X 4) + C e3 * (X 2 * X 5)) := by
+  have hXX : ∀ a b : Fin 6, (X a * X b : MvPolynomial (Fin 6) K) = monomial (Finsupp.single a 1 + Finsupp.single b 1) 1 := by
+    intro a b
+    have hX : ∀ c : Fin 6, (X c : MvPolynomial (Fin 6) K) = monomial (Finsupp.single c 1) 1 := fun _ => rfl
+    rw [hX a, hX b, monomial_mul, one_mul]
+  have s1 : (⟨1, 0, 0, 1, 0, 0⟩ : Mono).toFinsupp = Finsupp.single 0 1 + Finsupp.single 3 1 :=
+by
+    ext j; fin_cases j <;> simp [Mono.get, Finsupp.single_apply]
+  have s2 : (⟨0, 1, 0, 0, 1, 0⟩ : Mono).toFinsupp = Finsupp.single 1 1 + Finsupp.single 4 1 :=
+by
+    ext j; fin_cases j <;> simp [Mono.get, Finsupp.single_apply]
+  have s3 : (⟨0, 0, 1, 0, 0, 1⟩ : Mono).toFinsupp = Finsupp.single 2 1 + Finsupp.single 5 1 :=
+by
+    ext j; fin_cases j <;> simp [Mono.get, Finsupp.single_apply]
+  simp only [H2, toMv_cons, toMv_nil, add_zero, s1, s2, s3, hXX, C_mul_monomial, mul_one]
+
+/-- the bracket with `H2 = e1 q1 p1 + e2 q2 p2 + e3 q3 p3` in closed form -/
+theorem PB_H2 (e1 e2 e3 : K) (f : MvPolynomial (Fin 6) K) :
+    PB (toMv (H2 e1 e2 e3)) f
+      = C e1 * (X 3 * pderiv 3 f - X 0 * pderiv 0 f)
+        + (C e2 * (X 4 * pderiv 4 f - X 1 * pderiv 1 f) + C e3 * (X 5 * pderiv 5 f - X 2 * pderiv 2 f)) := by
+  rw [toMv_H2]
+  simp only [PB, map_add, Derivation.leibniz, pderiv_C, pderiv_X, smul_eq_mul, smul_zero, add_zero, Pi.single_apply]
+  simp only [show ((3 : Fin 6) = 0) = False from by decide, show ((0 : Fin 6) = 3) = False from by decide,
+    show ((4 : Fin 6) = 1) = False from by decide, show ((1 : Fin 6) = 4) = False from by decide,
+    show ((5 : Fin 6) = 2) = False from by decide, show ((2 : Fin 6) = 5) = False from by decide,
+    show ((1 : Fin 6) = 0) = False from by decide, show ((0 : Fin 6) = 1) = False from by decide,
+    show ((2 : Fin 6) = 0) = False from by decide, show ((0 : Fin 6) = 2) = False from by decide,
+    show ((4 : Fin 6) = 0) = False from by decide, show ((0 : Fin 6) = 4) = False from by decide,
+    show ((5 : Fin 6) = 0) = False from by decide, show ((0 : Fin 6) = 5) = False from by decide,
+    show ((2 : Fin 6) = 1) = False from by decide, show ((1 : Fin 6) = 2) = False from by decide,
+    show ((3 : Fin 6) = 1) = False from by decide, show ((1 : Fin 6) = 3) = False from by decide,
+    show ((5 : Fin 6) = 1) = False from by decide, show ((1 : Fin 6) = 5) = False from by decide,
+    show ((3 : Fin 6) = 2) = False from by decide, show ((2 : Fin 6) = 3) = False from by decide,
+    show ((4 : Fin 6) = 2) = False from by decide, show ((2 : Fin 6) = 4) = False from by decide,
+    show ((4 : Fin 6) = 3) = False from by decide, show ((3 : Fin 6) = 4) = False from by decide,
+    show ((5 : Fin 6) = 3) = False from by decide, show ((3 : Fin 6) = 5) = False from by decide,
+    show ((5 : Fin 6) = 4) = False from by decide, show ((4 : Fin 6) = 5) = False from by decide,
+    if_true, if_false]
+  ring
+
+/-- **the homological operator is diagonal**: `{H2, ·}` multiplies the monomial with exponents `k` by the divisor
+`(k3-k0) e1 + (k4-k1) e2 + (k5-k2) e3` of the code -/
+theorem coeff_poisson_H2 (e1 e2 e3 : K) (G : Poly K) (m : Mono) :
+    coeff (poisson (H2 e1 e2 e3) G) m = divisor e1 e2 e3 m * coeff G m := by
+  rw [← coeff_toMv, toMv_poisson, PB_H2]
+  simp only [MvPolynomial.coeff_add, MvPolynomial.coeff_C_mul, MvPolynomial.coeff_sub, coeff_X_mul_pderiv, coeff_toMv,
+    Mono.toFinsupp_apply]
+  simp only [divisor, Mono.get]
+  have e2 : ((2 : Fin 6) : ℕ) = 2 := rfl
+  have e3 : ((3 : Fin 6) : ℕ) = 3 := rfl
+  have e4 : ((4 : Fin 6) : ℕ) = 4 := rfl
+  have e5 : ((5 : Fin 6) : ℕ) = 5 := rfl
+  simp only [Fin.val_zero, Fin.val_one, e2, e3, e4, e5]
+  ring
+
+/-- congruence: the bracket only depends on the coefficients of its arguments -/
+theorem coeff_poisson_congr {p p' q q' : Poly K} (hp : ∀ m, coeff p m = coeff p' m) (hq : ∀ m, coeff q m = coeff q' m)
+    (m : Mono) : coeff (poisson p q) m = coeff (poisson p' q') m := by
+  rw [← coeff_toMv, ← coeff_toMv, toMv_poisson, toMv_poisson, toMv_ext hp, toMv_ext hq]
+
+theorem coeff_poisson_append_left (p1 p2 q : Poly K) (m : Mono) :
+    coeff (poisson (p1 ++ p2) q) m = coeff (poisson p1 q) m + coeff (poisson p2 q) m := by
+  rw [← coeff_toMv, ← coeff_toMv, ← coeff_toMv, toMv_poisson, toMv_poisson, toMv_poisson, toMv_append, PB_add_left,
+    MvPolynomial.coeff_add]
+
+/-! ### evaluation -/
+
+theorem npow_eq (x : K) (n : ℕ) : npow x n = x ^ n := by
+  induction n with
+  | zero => simp [npow]
+  | succ n ih => rw [npow, ih, pow_succ']
+
+theorem evalPoly_toMv (z : ℕ → K) (p : Poly K) : evalPoly z p = MvPolynomial.eval (fun j : Fin 6 => z j.val) (toMv p) := by
+  induction p with
+  | nil => simp [evalPoly]
+  | cons t r ih =>
+    have : evalPoly z (t :: r) = t.2 * evalMono z t.1 + evalPoly z r := rfl
+    rw [this, ih, toMv_cons, map_add, eval_monomial, Finsupp.prod_fintype _ _ (fun i => pow_zero _), Fin.prod_univ_six]
+    simp only [evalMono, npow_eq, Mono.toFinsupp_apply, Mono.get]
+    rfl
+
+end
+
+end HitenModel.C08
